@@ -171,7 +171,7 @@ func (e *Env) eval(x Expr) CV {
 			ne.vars[x.Var] = CV{k: cvInt, t: bv}
 			body := ne.eval(x.Body).asBool()
 			if x.Forall {
-				return CV{k: cvBool, t: fmt.Sprintf("(forall ((%s Int)) %s)", bv, body)}
+				return CV{k: cvBool, t: mkForall(bv, "true", body)}
 			}
 			return CV{k: cvBool, t: fmt.Sprintf("(exists ((%s Int)) %s)", bv, body)}
 		}
@@ -222,7 +222,7 @@ func (e *Env) eval(x Expr) CV {
 		if x.Forall {
 			abs := fmt.Sprintf("(forall ((%s Int)) %s)", bv, imp(rng, body))
 			if shift == "0" {
-				return CV{k: cvBool, t: abs}
+				return CV{k: cvBool, t: mkForall(bv, rng, body)}
 			}
 			// the same fact with the bound variable as relative index
 			rel := e.child()
@@ -1273,6 +1273,23 @@ func (e *Env) callSpecFn(sf *SpecFn, args []CV) CV {
 		unsupp("contract: %s expects %d arguments", sf.Name, len(sf.Params))
 	}
 	fx.usedSpecFns[sf.Name] = true
+	if fx.defineByEnsures && sf.Body == nil && len(sf.Ensures) == 1 {
+		// ground evaluation (bounded search): a function characterised by
+		// "result <==> E" / "result == E" is evaluated as E
+		if b, ok := sf.Ensures[0].E.(*EBinary); ok && (b.Op == "<==>" || b.Op == "==") {
+			if id, ok := b.L.(*EIdent); ok && id.Name == "result" {
+				ne := e.child()
+				for i, p := range sf.Params {
+					ne.vars[p.Name] = args[i]
+				}
+				ne.pkg = fx.eng.pkgOf(sf.Pkg)
+				if ne.pkg == nil {
+					ne.pkg = e.pkg
+				}
+				return ne.eval(b.R)
+			}
+		}
+	}
 	if sf.Inline {
 		// macro: evaluate the body here, in the current state
 		if sf.Body == nil || sf.Recursive {
@@ -1454,4 +1471,80 @@ func (fx *FnCtx) emitSpecFn(sf *SpecFn) {
 	}
 	fx.decls.Raw(fmt.Sprintf("(%s %s (%s) %s %s)", kw, name, strings.Join(params, " "), rt.sorts[0], bt))
 	fx.specFnState[sf.Name] = 2
+}
+
+// mkForall builds (forall ((bv Int)) (=> guard body)); when body is itself a
+// universal quantifier (possibly under its own range guard) the two are merged
+// into one quantifier over both variables - the solvers infer no trigger for
+// an outer variable that occurs only inside a nested quantifier, which left
+// "forall k: forall j: ..." hypotheses unused.
+func mkForall(bv string, guard T, body T) T {
+	plain := fmt.Sprintf("(forall ((%s Int)) %s)", bv, imp(guard, body))
+	inner := body
+	g2 := T("true")
+	if strings.HasPrefix(inner, "(=> ") {
+		parts := topLevelParts(inner)
+		if len(parts) == 3 && strings.HasPrefix(parts[2], "(forall ((") {
+			g2 = parts[1]
+			inner = parts[2]
+		}
+	}
+	if !strings.HasPrefix(inner, "(forall ((") {
+		return plain
+	}
+	parts := topLevelParts(inner)
+	if len(parts) != 3 || strings.Contains(parts[2], ":pattern") {
+		return plain
+	}
+	binders := strings.TrimSuffix(strings.TrimPrefix(parts[1], "("), ")")
+	return fmt.Sprintf("(forall ((%s Int) %s) %s)", bv, binders, imp(and(guard, g2), parts[2]))
+}
+
+// topLevelParts splits "(a b c)" into its top-level elements a, b, c.
+func topLevelParts(s string) []string {
+	if len(s) < 2 || s[0] != '(' || s[len(s)-1] != ')' {
+		return nil
+	}
+	s = s[1 : len(s)-1]
+	var out []string
+	depth, start := 0, -1
+	inBar := false
+	for i := 0; i < len(s); i++ {
+		c := s[i]
+		if c == '|' {
+			inBar = !inBar
+		}
+		if inBar {
+			if start < 0 {
+				start = i
+			}
+			continue
+		}
+		switch {
+		case c == '(':
+			if depth == 0 && start < 0 {
+				start = i
+			}
+			depth++
+		case c == ')':
+			depth--
+			if depth == 0 && start >= 0 && s[start] == '(' {
+				out = append(out, s[start:i+1])
+				start = -1
+			}
+		case c == ' ' || c == '\n' || c == '\t':
+			if depth == 0 && start >= 0 {
+				out = append(out, s[start:i])
+				start = -1
+			}
+		default:
+			if start < 0 {
+				start = i
+			}
+		}
+	}
+	if start >= 0 {
+		out = append(out, s[start:])
+	}
+	return out
 }
